@@ -407,6 +407,8 @@ class CallMixin:
             res = fresh_value(st, rty, "ret_" + c.qual.split(".")[-1])
         env2 = dict(env)
         env2["result"] = res
+        if c.yields is not None:
+            env2["out"] = seq          # in a generator's contract `out` is the sequence it yields: here the callee's, never the caller's
         # the caller may import only part of a callee's postcondition (fewer hypotheses: sound, and keeps shift-style
         # clauses that feed matching loops out of proofs that only need the membership-level ones)
         caller = getattr(ctx, "contract", None)
